@@ -297,19 +297,24 @@ def invert (uid : Nat) (t : Ty) : Option Ty :=
     | .dc _ => some (combine .neg uid [t])
     | _ => none
 
-/-- operator expressions over given objects -/
+/-- operator expressions over given objects (`LogicalType.any_of(...)` etc. are `combine` on built objects) -/
 inductive Expr where
   | atom (t : Ty)
   | bin (op : Comb) (l r : Expr)
   | inv (e : Expr)
-  | call (op : Comb) (args : List Expr)      -- LogicalType.all_of / any_of / one_of / not_of
   deriving Repr
 
-/-- serials: a node with `n` direct operands uses `n + 1` serials -/
+/-- the objects an expression mentions -/
+def Expr.atoms : Expr → Ty → Prop
+  | .atom t, a => a = t
+  | .bin _ l r, a => l.atoms a ∨ r.atoms a
+  | .inv e, a => e.atoms a
+
+/-- serials: a construction step uses fewer than `stride` serials -/
 def stride : Nat := 64
 
-mutual
-/-- evaluate an expression; `uid` = first free serial; returns the object and the next free serial -/
+/-- evaluate an expression; `uid` = first free serial; returns the object and the next free serial;
+`none` = the expression never reaches utype / is a TypeError of Python itself -/
 def build : Expr → Nat → Option (Ty × Nat)
   | .atom t, uid => some (t, uid)
   | .bin op l r, uid =>
@@ -329,20 +334,6 @@ def build : Expr → Nat → Option (Ty × Nat)
       match invert u1 t with
       | none => none
       | some t' => some (t', u1 + stride)
-  | .call op args, uid =>
-    match buildList args uid with
-    | none => none
-    | some (ts, u1) => some (combine op u1 ts, u1 + stride)
-def buildList : List Expr → Nat → Option (List Ty × Nat)
-  | [], uid => some ([], uid)
-  | e :: es, uid =>
-    match build e uid with
-    | none => none
-    | some (t, u1) =>
-      match buildList es u1 with
-      | none => none
-      | some (ts, u2) => some (t :: ts, u2)
-end
 
 /-! ## semantics of a built type over leaf tables (used by the driver; instance of Part A) -/
 
